@@ -453,6 +453,8 @@ def run_witness(qual, wit, R=None, stubs=None):
         fn, bound = resolve_callable(qual)
         args = dict(env)
         selfobj = args.pop("self", None)
+        if not bound:
+            args.pop("cls", None)  # classmethods are resolved through their class
         result, raised = None, None
         try:
             if selfobj is not None:
